@@ -1,11 +1,11 @@
 // Package stack builds registry stacks: wrappers and real HTTP hops
-// (ociclient -> httptest server running ociserver) over a backend.
+// (ociclient -> net/http server running ociserver, over in-memory connections)
+// over a backend.
 package stack
 
 import (
 	"fmt"
 	"net/http"
-	"net/http/httptest"
 	"strings"
 	"sync"
 
@@ -17,6 +17,8 @@ import (
 	"cuelabs.dev/go/oci/ociregistry/ociserver"
 	"cuelabs.dev/go/oci/ociregistry/ociunify"
 	"pgregory.net/rapid"
+
+	"verif/harness/internal/memnet"
 )
 
 // Layer is one element of a stack, applied on top of what is below it.
@@ -84,7 +86,7 @@ func (s Spec) Hops() int {
 type Built struct {
 	Top     ociregistry.Interface
 	Members []*ocimem.Registry // extra ocimem members created for unify layers
-	Servers []*httptest.Server
+	Servers []*memnet.Server
 	// Tap, when set before Build, wraps each hop's transport (bottom hop first).
 	closers []func()
 	LogMu   sync.Mutex
@@ -117,13 +119,13 @@ func Build(base ociregistry.Interface, spec Spec, opts *Options) (*Built, error)
 	for _, l := range spec {
 		switch l.Kind {
 		case "http":
-			srv := httptest.NewServer(ociserver.New(cur, &ociserver.Options{
+			srv := memnet.NewServer(ociserver.New(cur, &ociserver.Options{
 				OmitDigestFromTagGetResponse: l.OmitDigest,
 				OmitLinkHeaderFromResponses:  l.OmitLink,
 				DisableSinglePostUpload:      l.NoSinglePost,
 				MaxListPageSize:              l.MaxPage,
 			}))
-			tr := &http.Transport{MaxIdleConnsPerHost: 4}
+			tr := srv.Transport()
 			var rt http.RoundTripper = tr
 			if opts.WrapTransport != nil {
 				rt = opts.WrapTransport(hop, rt)
